@@ -131,9 +131,15 @@ pub fn small_cond(s: &mut Source, v: &Term) -> Goal {
 /// One goal over the variables `q` and `r` (ids 0 and 1) with one large dimension; fresh
 /// variables are numbered from `*next_var`.
 pub fn big_goal(s: &mut Source, thorough: bool, next_var: &mut VarId) -> Goal {
+    big_goal_opts(s, thorough, next_var, true)
+}
+
+/// `allow_chain = false` leaves out the chain of binary choice points (whose search tree is
+/// only small while the pruning constraints come first: not for reordering checks).
+pub fn big_goal_opts(s: &mut Source, thorough: bool, next_var: &mut VarId, allow_chain: bool) -> Goal {
     let cap_n = cap(thorough);
     let (q, r) = (Term::Var(0), Term::Var(1));
-    match s.weighted(&[4, 3, 6]) {
+    match s.weighted(&[4, if allow_chain { 3 } else { 0 }, 6]) {
         // one wide disjunction
         0 => {
             let n = size(s, cap_n);
@@ -228,11 +234,15 @@ pub fn big_goal(s: &mut Source, thorough: bool, next_var: &mut VarId) -> Goal {
 }
 
 pub fn search_program(s: &mut Source, thorough: bool, reserved_q: usize) -> Program {
+    search_program_opts(s, thorough, reserved_q, true)
+}
+
+pub fn search_program_opts(s: &mut Source, thorough: bool, reserved_q: usize, allow_chain: bool) -> Program {
     let nq = 2;
     let (q, r) = (Term::Var(0), Term::Var(1));
     let mut next_var: VarId = (nq + reserved_q) as VarId;
     let mut body: Vec<Goal> = vec![];
-    let main = big_goal(s, thorough, &mut next_var);
+    let main = big_goal_opts(s, thorough, &mut next_var, allow_chain);
     // surroundings: nothing, a small choice before / after, or as one branch of a disjunction
     match s.weighted(&[3, 2, 2, 2]) {
         0 => body.push(main),
